@@ -214,6 +214,29 @@ func BrokerStress(rate, npub, nsub, n int, rng *rand.Rand, label string) ([]*cor
 		pubs = append(pubs, rc)
 		writers = append(writers, fmt.Sprintf("w%d", i+1))
 	}
+	// subscribers that come and go: two more clients hold the same subscription and close their sockets abruptly while
+	// the publishers are running (their transports refuse writes before the broker has unsubscribed them). The stable
+	// subscribers above must not notice.
+	var churn []*rawClient
+	for i := 0; i < 2; i++ {
+		rc := attachRaw(b, rate)
+		rc.send(&mqtt.Connect{ClientID: []byte(fmt.Sprintf("x%d", i)), ProtoName: []byte("MQTT"), Version: 4, KeepAlive: 60})
+		rc.send(&mqtt.Subscribe{MessageID: 1, Subscriptions: []mqtt.TopicQOSTuple{{Topic: topic}}})
+		if err := rc.waitPong(1, 10*time.Second); err != nil {
+			return nil, fmt.Errorf("churn subscriber setup: %v", err)
+		}
+		churn = append(churn, rc)
+	}
+	for i, rc := range churn {
+		go func(i int, rc *rawClient) {
+			time.Sleep(time.Duration(200+rng.Intn(1500)*(i+1)) * time.Microsecond)
+			if rc.ws != nil {
+				rc.ws.Close()
+			} else {
+				rc.c.Close()
+			}
+		}(i, rc)
+	}
 	sizes := []int{0, 0, 30, 200, 3000}
 	var wg sync.WaitGroup
 	for w := range pubs {
